@@ -7,6 +7,17 @@ import (
 
 // EqdC is an Equidistant Conic projection.
 func EqdC(this *SR) (forward, inverse Transformer, err error) {
+	// Parameters that are left out of the definition default to zero, as in
+	// PROJ.4 (and as Merc and LCC do for the false origin).
+	if math.IsNaN(this.X0) {
+		this.X0 = 0
+	}
+	if math.IsNaN(this.Y0) {
+		this.Y0 = 0
+	}
+	if math.IsNaN(this.Lat0) {
+		this.Lat0 = 0
+	}
 	// Standard Parallels cannot be equal and on opposite sides of the equator
 	if math.Abs(this.Lat1+this.Lat2) < epsln {
 		return nil, nil, fmt.Errorf("proj: Equidistant Conic parallels cannot be equal and on opposite sides of the equator but are %g and %g", this.Lat1, this.Lat2)
